@@ -826,6 +826,7 @@ def _std_transfer(I, fr, t, c, pth):
                 if lo <= h <= len(s.items):
                     fr.storev(dest, Agg(s.items[lo:h]))
                     return True
+                raise exp.Diverged(where)       # known bounds outside a sequence of known length: the indexing panics
             return False
         rp = ref_of(fr, args[0])
         if rp is not None and (hi is None):
@@ -837,6 +838,8 @@ def _std_transfer(I, fr, t, c, pth):
             if isinstance(s, Agg) and lo <= hi <= len(s.items):
                 fr.storev(dest, Ref(rp[0], list(rp[1]) + [['off', lo, hi - lo]]))
                 return True
+            if isinstance(s, Agg):
+                raise exp.Diverged(where)
         return False
     return False
 
